@@ -25,6 +25,7 @@ type crashCfg struct {
 	assumedFns map[string]string // function name -> reason: sites listed as assumed, never discharged
 	skipFns    map[string]string // function name -> reason: not reachable from untrusted input (local API)
 	fatalIsOK  map[string]string // "<function>|<construct>" for panic/log.Fatal sites excepted with reason
+	assertOK   func(*ssa.TypeAssert) (bool, string) // property-specific discharge of unchecked assertions
 }
 
 // compilerUnproven runs the compiler's bounds-check report for the packages and returns the set
@@ -208,6 +209,13 @@ func crashInventory(c *Ctx, r *Report, cfg crashCfg) crashStats {
 					// an assertion to the value's own static concrete origin is safe
 					if mi, ok := x.X.(*ssa.MakeInterface); ok && types.Identical(mi.X.Type(), x.AssertedType) {
 						return true, "asserted type is the type the interface was just made from"
+					}
+					if cfg.assertOK != nil {
+						if ok, why := cfg.assertOK(x); ok {
+							return true, why
+						} else if why != "" {
+							return false, why
+						}
 					}
 					return false, "type assertion without comma-ok on a value whose dynamic type is not established here"
 				}
